@@ -8,30 +8,36 @@
 (* Deviation of the pinned tree kept as a switch:                          *)
 (*   FinalInRoot = TRUE  SetFinal writes its height into the keyspace the  *)
 (*                       state root is computed over                       *)
+(*   InitRecomputes = TRUE  a repeated InitChain returns the root of the   *)
+(*                       current state instead of the recorded genesis root*)
 (***************************************************************************)
 EXTENDS Integers, Sequences, FiniteSets, TLC
 
-CONSTANTS Keys, Vals, MaxOps, FinalInRoot
+CONSTANTS Keys, Vals, MaxOps, FinalInRoot, InitRecomputes
 Inst == {1, 2}
 TxSet == [k : Keys, v : Vals, bad : {FALSE}] \cup {[k |-> "?", v |-> "?", bad |-> TRUE]}
 Blocks == {<<t>> : t \in TxSet} \cup {<<t, u>> : t \in TxSet, u \in TxSet} \cup {<<>>}
 
-VARIABLES kv, fin, hist, genesis, ops
-vars == <<kv, fin, hist, genesis, ops>>
+VARIABLES kv, fin, hist, genesis, ops,
+          initRet      \* per instance: the sequence of roots InitChain has returned
+vars == <<kv, fin, hist, genesis, ops, initRet>>
 
 Init == /\ kv = [i \in Inst |-> <<>>] /\ fin = [i \in Inst |-> 0] /\ hist = [i \in Inst |-> <<>>]
-        /\ genesis = [i \in Inst |-> FALSE] /\ ops = 0
+        /\ genesis = [i \in Inst |-> <<>>] /\ ops = 0 /\ initRet = [i \in Inst |-> <<>>]
 
 RECURSIVE Apply(_, _)
 Apply(m, b) == IF b = <<>> THEN m ELSE Apply((Head(b).k :> Head(b).v) @@ m, Tail(b))
 Bad(b) == \E i \in 1 .. Len(b) : b[i].bad
 Root(i) == IF FinalInRoot THEN <<kv[i], fin[i]>> ELSE <<kv[i]>>
 
-InitChain(i) == /\ genesis' = [genesis EXCEPT ![i] = TRUE] /\ UNCHANGED <<kv, fin, hist>>
+\* the first InitChain records the root of the state it finds (<<root>>); later ones return the recorded root
+InitChain(i) == /\ genesis' = [genesis EXCEPT ![i] = IF @ = <<>> THEN <<Root(i)>> ELSE @]
+                /\ initRet' = [initRet EXCEPT ![i] = Append(@, IF genesis[i] = <<>> \/ InitRecomputes THEN Root(i) ELSE genesis[i][1])]
+                /\ UNCHANGED <<kv, fin, hist>>
 Exec(i, b) == /\ IF Bad(b) THEN UNCHANGED <<kv, hist>>
                  ELSE kv' = [kv EXCEPT ![i] = Apply(@, b)] /\ hist' = [hist EXCEPT ![i] = Append(@, b)]
-              /\ UNCHANGED <<fin, genesis>>
-Final(i, h) == /\ fin' = [fin EXCEPT ![i] = h] /\ UNCHANGED <<kv, hist, genesis>>
+              /\ UNCHANGED <<fin, genesis, initRet>>
+Final(i, h) == /\ fin' = [fin EXCEPT ![i] = h] /\ UNCHANGED <<kv, hist, genesis, initRet>>
 
 Next == /\ ops < MaxOps /\ ops' = ops + 1
         /\ \E i \in Inst : InitChain(i) \/ (\E b \in Blocks : Exec(i, b)) \/ (\E h \in 1 .. 2 : Final(i, h))
@@ -39,4 +45,6 @@ Spec == Init /\ [][Next]_vars
 
 \* C15: equal executed-transaction histories give equal roots, whatever was finalized when
 EqualHistoriesEqualRoots == hist[1] = hist[2] => Root(1) = Root(2)
+\* chain initialization is idempotent: every InitChain of an instance returns what its first one returned
+InitIdempotent == \A i \in Inst : \A j \in 1 .. Len(initRet[i]) : initRet[i][j] = initRet[i][1]
 ==========================================================================
